@@ -18,9 +18,9 @@ if TYPE_CHECKING:
 
 
 DEFAULT_INNER_TAG_MAP = {
-    "for": ["break", "continue"],
+    "for": ["break", "continue", "else"],
     "if": ["else", "elsif"],
-    "case": ["when"],
+    "case": ["when", "else"],
     "unless": ["else", "elsif"],
 }
 
